@@ -5,7 +5,15 @@ spec["guards"] = [ [file, function, anchor-regex, gallina-name, [params], {c-sub
   The anchor regex is searched in the body of the function (after gcc -E, i.e. DFACC_WRITE is 2, HGOTO_ERROR is
   expanded to its HEpush/goto form) and must match exactly once; its group 1 is the C expression that is translated.
   Deleting a check makes its anchor vanish (the generated file then fails to build, and every proof that imports it
-  with it); weakening it changes the generated definition and breaks the lemma that characterises it."""
+  with it); weakening it changes the generated definition and breaks the lemma that characterises it.
+
+spec["structure"] = [ ["depth", file, function, anchor, name],
+                      ["count_after", file, function, anchor, pattern, "block"|"function", name],
+                      ["count_before", file, function, anchor, pattern, name] ]
+  Position of a guard / an update relative to the control structure: its brace depth (a guard that has been moved
+  into a branch no longer has depth 0), what follows it (a re-assignment of the guarded handle, a failing exit after a
+  permission upgrade) and what precedes it (effects before the guard).  The lemmas state the values a DOMINATING guard
+  has; a guard that no longer dominates a path changes them."""
 import re
 
 
@@ -28,4 +36,58 @@ def emit(repo, spec, H):
         term = H.P(e, params, env).ternary_all()
         out.append("(* %s: %s: %s *)" % (f, fn, cexpr.replace("*)", "* )").replace("(*", "( *")))
         out.append("Definition %s %s : Z := %s." % (name, " ".join("(%s : Z)" % p for p in params), term))
+    # ---- structure: WHERE a guard (or an update) stands relative to the branches and the effects of its function
+    def locate(f, fn, anchor):
+        body = H.func_body(H.src(repo, f), fn)
+        ms = list(re.finditer(anchor, body))
+        if len(ms) != 1:
+            raise ValueError("%s:%s: structure anchor %r matched %d times (need exactly 1)" % (f, fn, anchor, len(ms)))
+        return body, ms[0]
+
+    def depth_at(body, pos):
+        """number of CONDITIONAL blocks (opened by if/else/for/while/do/switch) that enclose position pos; bare scope
+        blocks '{ decl; ... }' are executed unconditionally and do not count"""
+        stack = []
+        for i, ch in enumerate(body[:pos]):
+            if ch == "{":
+                before = body[:i].rstrip()
+                cond = before.endswith(")") or re.search(r"\b(else|do)$", before) is not None
+                stack.append(1 if cond else 0)
+            elif ch == "}" and stack:
+                stack.pop()
+        return sum(stack)
+
+    def block_end(body, pos):
+        d = 0
+        for i in range(pos, len(body)):
+            if body[i] == "{":
+                d += 1
+            elif body[i] == "}":
+                if d == 0:
+                    return i
+                d -= 1
+        return len(body)
+
+    for ent in spec.get("structure", []):
+        kind = ent[0]
+        if kind == "depth":
+            _, f, fn, anchor, name = ent
+            body, m = locate(f, fn, anchor)
+            out.append("(* %s: %s: number of conditional blocks enclosing the statement matching %s (0 = executed on every path that reaches it from the function entry) *)" % (f, fn, anchor.replace("*)", "* )").replace("(*", "( *")))
+            out.append("Definition %s : Z := %d." % (name, depth_at(body, m.start())))
+        elif kind == "count_after":
+            _, f, fn, anchor, pattern, scope, name = ent
+            body, m = locate(f, fn, anchor)
+            end = block_end(body, m.end()) if scope == "block" else len(body)
+            n = len(re.findall(pattern, body[m.end():end]))
+            out.append("(* %s: %s: occurrences of /%s/ after the anchored statement, to the end of its %s *)" % (f, fn, pattern.replace("*)", "* )").replace("(*", "( *"), scope))
+            out.append("Definition %s : Z := %d." % (name, n))
+        elif kind == "count_before":
+            _, f, fn, anchor, pattern, name = ent
+            body, m = locate(f, fn, anchor)
+            n = len(re.findall(pattern, body[:m.start()]))
+            out.append("(* %s: %s: occurrences of /%s/ before the anchored statement *)" % (f, fn, pattern.replace("*)", "* )").replace("(*", "( *")))
+            out.append("Definition %s : Z := %d." % (name, n))
+        else:
+            raise ValueError("unknown structure kind %r" % kind)
     return out
